@@ -483,7 +483,6 @@ func TestVerifC14(t *testing.T) {
 		Exhaustive: true, Sample: sample, Extra: map[string]interface{}{"wall_s": time.Since(start).Seconds()}})
 }
 
-
 // C14 from non-initial states: the same bodiless / short programs, but after the chain has
 // already served exchanges of other kinds (an Upgrade that hijacks the connection, an
 // oversized response, an oversized upload, HEAD). A wrapper or buffer that survives an
@@ -588,7 +587,7 @@ func TestVerifC14Hist(t *testing.T) {
 		}
 	}
 	r.AddScenario(vres.Scenario{Name: "size-limit-after-other-exchanges", Engine: "W", Evaluations: evals, Distinct: int64(outs.N()), Outcomes: outs.N(),
-		Rule:       "bodiless and short handler programs exchanged with and without size_limit right after three exchanges of another kind on the same chain (Upgrade/hijack, oversized response, oversized chunked upload, HEAD, plain); GOMAXPROCS=1; distinct = (prelude, status sent, status received, verdict) classes",
-		Bound:      "3 chain positions x 5 preludes x GET/HEAD x 7 status modes x bodies {0,1,L} x 2 flush policies", Exhaustive: true,
+		Rule:  "bodiless and short handler programs exchanged with and without size_limit right after three exchanges of another kind on the same chain (Upgrade/hijack, oversized response, oversized chunked upload, HEAD, plain); GOMAXPROCS=1; distinct = (prelude, status sent, status received, verdict) classes",
+		Bound: "3 chain positions x 5 preludes x GET/HEAD x 7 status modes x bodies {0,1,L} x 2 flush policies", Exhaustive: true,
 		Sample: map[string]interface{}{"prelude": "upgrade", "then": "GET status=204 writes=[]"}, Extra: map[string]interface{}{"wall_s": time.Since(start).Seconds()}})
 }
